@@ -93,7 +93,13 @@ ShapeMax(a, b, dc, tail) ==
   (IF b > 0 THEN GroupsF(b) ELSE <<>>) \o
   (IF tail THEN (IF b > 0 THEN <<COLON>> ELSE <<>>) \o T255 ELSE <<>>)
 FamMax == { Br(t \o ShapeMax(a, b, dc, tail)) : t \in {TagIPv6, <<>>}, a \in 0..8, b \in 0..8, dc \in BOOLEAN, tail \in BOOLEAN }
-Family == FamOctet \cup FamV6 \cup FamSfx \cup FamByteIp \cup FamSpell \cup FamBig \cup FamMax
+\* dotted quads of every total length 7..28 (octets padded with zeros), alone and as the tail of an IPv6 literal
+Pad(v, w) == Rep(48, w) \o Dec(v)
+QuadsPadded == { JoinWith(<<Pad(v1, w1), Pad(v2, w2), Pad(v3, w3), Pad(v4, w4)>>, DOT) :
+                   v1 \in {1, 192}, v2 \in {0, 168}, v3 \in {100}, v4 \in {4, 100}, w1 \in {0, 1, 2, 5}, w2 \in {0, 1}, w3 \in {0, 2}, w4 \in {0, 1, 3, 7} }
+FamPad == UNION { { Br(q), Br(TagIPv6 \o <<COLON, COLON>> \o q), Br(TagIPv6 \o <<COLON, COLON, 102, 102, 102, 102, COLON>> \o q),
+                    Br(TagIPv6 \o <<49, COLON, 50, COLON, 51, COLON, 52, COLON, 53, COLON, 54, COLON>> \o q), Br(<<49, COLON, COLON>> \o q) } : q \in QuadsPadded }
+Family == FamOctet \cup FamV6 \cup FamSfx \cup FamByteIp \cup FamSpell \cup FamBig \cup FamMax \cup FamPad
 
 D == Br(c)
 \* families are spread over 64 buckets (k = -1: bucket chosen) so that all workers share the evaluation
